@@ -282,7 +282,7 @@ RCP<const Basic> build(const J &t)
     const J &a = t.at("a");
     // ---- literals (same kinds as the dumper emits)
     if (k == "Int")
-        return integer(t.at("n").i);
+        return integer((long)t.at("n").i);
     if (k == "Big" || k == "BigS")
         return integer(build_integer(t));
     if (k == "Rat")
